@@ -10,5 +10,5 @@ CONSTANTS
  OpKinds <- AllKinds
  UseMutex = TRUE
 SPECIFICATION Spec
-INVARIANTS NoViol Glue Quiescent LayoutGlue WellFormed
+INVARIANTS NoViol Glue Quiescent LayoutGlue WellFormed GetStable HeadStable
 CHECK_DEADLOCK FALSE
